@@ -99,9 +99,9 @@ func (c *Ctx) load(patterns ...string) {
 	if c.fset == nil {
 		c.fset = token.NewFileSet()
 	}
-	env := append(os.Environ(), "GOFLAGS=-mod=mod", "GOPROXY=off", "GOSUMDB=off", "GOTOOLCHAIN=local", "GOWORK=off")
+	env := append(os.Environ(), "GOFLAGS=-mod=readonly", "GOPROXY=off", "GOSUMDB=off", "GOTOOLCHAIN=local", "GOWORK=off")
 	cfg := &packages.Config{
-		Mode:  packages.LoadAllSyntax | packages.NeedModule,
+		Mode:  loadMode(),
 		Dir:   c.Repo,
 		Fset:  c.fset,
 		Env:   env,
@@ -553,4 +553,14 @@ func (c *Ctx) finish(pd *propDef, start time.Time) int {
 		return 1
 	}
 	return 0
+}
+
+// loadMode: the requested packages are parsed and type-checked from /repo's current source; their
+// dependencies come from compiler export data (`go list -export`, served by the build cache).
+// TEMPLVET_ALLSYNTAX=1 type-checks every dependency from source instead (slower, no build needed).
+func loadMode() packages.LoadMode {
+	if os.Getenv("TEMPLVET_ALLSYNTAX") == "1" {
+		return packages.LoadAllSyntax | packages.NeedModule
+	}
+	return packages.LoadSyntax | packages.NeedModule
 }
